@@ -80,7 +80,39 @@ func (w *World) sweepLint(li *LintInfo, prop string) (res sweepResult) {
 	ex.top = true
 	ex.fname = fname
 	var args []Val
-	for _, p := range li.Execute.Params {
+	// The framework runs CheckApplies and Execute on the instance the registered constructor has
+	// just returned (base.go: l.Lint()). For a lint that is not configurable the receiver is
+	// therefore exactly the constructor's result: the constructor is executed symbolically first
+	// (single return path, a boxed pointer). Configurable lints keep an unconstrained instance
+	// (any field values the configuration may have written).
+	recvTerm := ""
+	if prop == "C02" && li.Ctor != nil && li.Ctor.Blocks != nil && li.Configure == nil && len(li.Ctor.Params) == 0 && len(li.Execute.Params) > 0 && inlinable(li.Ctor) {
+		if _, isPtr := li.Execute.Params[0].Type().Underlying().(*types.Pointer); isPtr {
+			cf := u.newFrame(li.Ctor, nil, 1)
+			cf.fname = fname
+			u.safety = false
+			cf.run(heap, "true")
+			u.safety = true
+			if len(cf.retConds) == 1 && len(cf.retVals[0]) == 1 {
+				rv := cf.retVals[0][0]
+				if _, isIf := rv.Typ.Underlying().(*types.Interface); isIf {
+					recvTerm = u.define("recv", "Int", "(if.val "+rv.T+")")
+					heap = cf.retHeaps[0]
+					u.note("receiver = result of the registered constructor (executed symbolically before CheckApplies)")
+				}
+			}
+		}
+	}
+	if prop == "C02" {
+		u.assumePkgInvs(heap, prop)
+	}
+	for pi, p := range li.Execute.Params {
+		if pi == 0 && recvTerm != "" {
+			v := Val{T: recvTerm, Typ: p.Type()}
+			ex.vals[p] = v
+			args = append(args, v)
+			continue
+		}
 		x := u.fresh("param."+p.Name(), u.D.SortOf(p.Type()))
 		v := Val{T: x, Typ: p.Type()}
 		ex.vals[p] = v
@@ -271,6 +303,9 @@ func schematic(w *World, r *Report, prop string) []*Obligation {
 	if len(skipped) > 0 {
 		r.Extra["lints_not_claimed"] = skipped
 		r.Extra["lints_not_claimed_note"] = "these lints had undischarged safety obligations on the unchanged tree when the ledger was written; they are unverified (not held), and are not re-swept by the check"
+	}
+	if prop == "C02" {
+		all = append(all, pkgInvObligations(w, r, prop)...)
 	}
 	r.Extra["lints_swept"] = nOK
 	r.Extra["lints_unsupported"] = unsupported
